@@ -111,6 +111,37 @@ func (p *c14Parser) chain(e ast.Expr) (c09Arg, error) {
 		}
 		out.Calls = append(out.Calls, cl)
 	}
+	// runs of consecutive calls of one index option come from a range over a Go map: the order
+	// varies from run to run; print them sorted
+	isIdx := func(name string) bool {
+		for _, o := range b.Options {
+			if o.Name == name {
+				for _, a := range o.Assignments {
+					if a.Method == cogast.IndexAssignment {
+						return true
+					}
+				}
+			}
+		}
+		return false
+	}
+	for i := 0; i < len(out.Calls); {
+		j := i + 1
+		if isIdx(out.Calls[i].Opt) {
+			for j < len(out.Calls) && out.Calls[j].Opt == out.Calls[i].Opt {
+				j++
+			}
+			run := out.Calls[i:j]
+			for k := range run {
+				for a := range run[k].Args {
+					c14Canon(&run[k].Args[a])
+				}
+			}
+			key := func(c c09Call) string { return c09Spec{Calls: []c09Call{c}}.sexp() }
+			sort.SliceStable(run, func(x, y int) bool { return key(run[x]) < key(run[y]) })
+		}
+		i = j
+	}
 	return out, nil
 }
 
